@@ -67,7 +67,8 @@ Definition g_score_terms (gi : ginput) (s : state) : list Z :=
   (if (0 <? o_f_early o) && has_early inp then [o_f_early o * obj_early inp s] else []) ++
   (if (0 <? o_f_late o) && has_late inp then [o_f_late o * obj_late inp s] else []) ++
   (if (0 <? o_f_min_stops o) && has_min_stops inp then [o_f_min_stops o * obj_min_stops inp s] else []) ++
-  (if 0 <? o_f_stop_balance o then [o_f_stop_balance o * obj_stop_balance inp s] else []).
+  (if 0 <? o_f_stop_balance o then [o_f_stop_balance o * obj_stop_balance inp s] else []) ++
+  cap_obj_terms inp s.
 
 Definition g_refresh (gi : ginput) (s : state) : state :=
   let t := g_score_terms gi s in
